@@ -207,6 +207,7 @@ def main(check):
         "exhaustive": result.exhaustive,
         "stats": result.stats,
         "tie_broken": [w for w, _ in tie_broken],
+        "leanchecker_rc": audit.get("leanchecker_rc", "not run (quick tier)"),
     }
     cov.update(result.extra)
     core.write_evidence(prop, args.tier, seed, check.level, cov, check.assumptions, wall, violations)
